@@ -18,7 +18,8 @@ RULE = ('random integer feature trajectories (1..40 frames, 1..4 features and 1.
         'integer dtypes (same or mixed on the two sides, ids up to the dtype maximum), as C / Fortran / strided / '
         'reversed views and 1-D vectors, run under 1..16 OpenMP threads; malformed streams (negative id, id = n, '
         'id > n, different lengths, zero frames, zero features, mixed dtypes with a negative id, state count too '
-        'large for a C int) run in a child process; count tables from the real kernel feed mutual_information / '
+        'large for a C int); 1-D streams for libinfo.bincount2d (valid and malformed); every call of the compiled '
+        'kernels runs in a child process; count tables from the real kernel feed mutual_information / '
         'mi_matrix (1..4 pooled trajectories) / weighted_mi (uniform and random weights) / '
         'channel_capacity_normalization (n_x != n_y, different lengths, scalar or vector) / kl_divergence (zeros, '
         'bases 2, e, 10, 1.5) / shannon_entropy; a case is non-trivial when at least two states occur; distinct by '
@@ -386,8 +387,7 @@ def gen_b1d(rng, idx):
     c = {'kind': 'b1d', 'a': a, 'b': b, 'n_a': na, 'n_b': nb, 'dtype': DTYPES[idx % 8],
          'layout': str(rng.choice(['C', 'strided', 'reversed'])), 'why': None}
     if idx % 2 == 1:
-        # (a negative id currently kills the child: one child restart each, so only a few of them)
-        why = 'negative' if (idx // 2) % 12 == 0 else ['too-large', 'length'][(idx // 2) % 2]
+        why = ['negative', 'too-large', 'length'][(idx // 2) % 3]
         if T == 0:
             T = 3
             c['a'] = [int(v) for v in rng.integers(0, na, size=T)]
@@ -405,17 +405,24 @@ def gen_b1d(rng, idx):
     return c
 
 
-def check_b1d(ctx, c, got):
+def b1d_request(c):
+    col = lambda v: {'rows': [[x] for x in v], 'T': len(v), 'F': 1, 'dt': dt_spec(c['dtype'])}  # noqa: E731
+    return {'op': 'C18.bincount1', 'a': col(c['a']), 'b': col(c['b']), 'n_a': c['n_a'], 'n_b': c['n_b']}
+
+
+def check_b1d(ctx, c, got, model):
     ctx.case(c, nontrivial=len(c['a']) > 0, tags=['bincount2d-1D', 'b1d-' + (c['why'] or 'valid'), 'dtype-x=' + c['dtype']])
     if c['why']:
-        # malformed 1-D stream: must be rejected.  libinfo.bincount2d has no range guards (known finding)
-        key = 'bincount2d-unguarded' if c['why'] in ('negative', 'too-large') else None
+        # malformed 1-D stream: must be rejected
         if 'crash' in got:
             ctx.violation('malformed 1-D stream (%s) crashed the process in libinfo.bincount2d (return code %s)'
-                          % (c['why'], got['crash']), c, key=key)
+                          % (c['why'], got['crash']), c)
         elif 'error' not in got:
             ctx.violation('malformed 1-D stream (%s) was accepted by libinfo.bincount2d: %s counts for %d frames'
-                          % (c['why'], got.get('total'), len(c['a'])), c, key=key)
+                          % (c['why'], got.get('total'), len(c['a'])), c)
+        elif model.get('error') != got['error']:
+            ctx.disagreement('Model.Info.bincount2d guard stage vs libinfo.bincount2d (%s): %s vs %s'
+                             % (c['why'], _short(model), got['error']), c)
         return
     if 'crash' in got or 'error' in got:
         ctx.violation('libinfo.bincount2d failed on a valid 1-D stream: %s' % _short(got), c)
@@ -425,6 +432,9 @@ def check_b1d(ctx, c, got):
         ref[i, j] += 1
     if got['shape'] != list(ref.shape) or got['ok'] != ref.tolist():
         ctx.violation('libinfo.bincount2d table differs from the number of frames', c)
+        return
+    if model.get('ok') != got['ok']:
+        ctx.disagreement('Model.Info.bincount2d vs libinfo.bincount2d', dict(c, model=_short(model)))
 
 
 # --------------------------------------------------------------------------------------
@@ -1201,7 +1211,7 @@ def run(ctx):
         t0 = time.time()
     # 1. valid streams: table == brute force == model; then the MI laws on the real table
     cases = [gen_jc_case(rng, i) for i in range(ctx.n(260, 8000))]
-    cases += [gen_wide_case(rng) for _ in range(ctx.n(24, 400))]
+    cases += [gen_wide_case(rng) for _ in range(ctx.n(40, 400))]
     ok, _ = jc_pipeline(ctx, cases, ctx.n(110, 3000), ctx.n(80, 2000))
     lap('jc+mi-laws+sched')
     # 2. malformed streams (child process)
@@ -1220,8 +1230,9 @@ def run(ctx):
     lap('sweep')
     # 3b. the 1-D kernel libinfo.bincount2d (child process)
     b1 = [gen_b1d(rng, i) for i in range(ctx.n(48, 1200))]
-    for c, g in zip(b1, run_in_child(b1)):
-        check_b1d(ctx, c, g)
+    for c, g, m in zip(b1, run_in_child(b1), ctx.driver([b1d_request(c) for c in b1])):
+        check_b1d(ctx, c, g, m)
+        ok = ok and 'crash' not in g
     lap('bincount2d-1D')
     if not ok:
         # the compiled kernel accesses memory out of bounds: do not call it in this process
@@ -1297,7 +1308,7 @@ def replay(ctx, data):
     elif kind == 'sweep':
         check_sweep(ctx, base, run_in_child([base])[0])
     elif kind == 'b1d':
-        check_b1d(ctx, base, run_in_child([base])[0])
+        check_b1d(ctx, base, run_in_child([base])[0], ctx.driver([b1d_request(base)])[0])
     elif kind == 'mi_matrix':
         check_mi_matrix(ctx, base, ctx.driver([mi_matrix_request(base)])[0])
     elif kind == 'wmi':
